@@ -343,6 +343,15 @@ fn run_ty<Ty: EdgeType, Other: EdgeType, Ix: IndexType>(c: &Case) -> Outcome {
                 if let Err(e) = guarded(|| g.extend_with_edges(items.iter().map(|&(a, b, w)| (NodeIndex::<Ix>::new(a as usize), NodeIndex::<Ix>::new(b as usize), w)))) {
                     return Err(unexpected_panic("extend_with_edges", e));
                 }
+                // an edge that names index Ix::max() (= NodeIndex::end()) needs one node more than the index
+                // type admits: the documented add_node panic, never a node at the reserved index (tried on a copy)
+                if lim == 255 {
+                    let mut h = g.clone();
+                    let r = guarded(|| h.extend_with_edges([(NodeIndex::<Ix>::new(0), NodeIndex::<Ix>::new(lim), W::default())]));
+                    if r.is_ok() || h.node_count() > lim {
+                        bad!("extend_with_edges-beyond-index-limit", "extend_with_edges with an endpoint at index {lim} = NodeIndex::end() returned normally / left {} nodes (limit {lim})", h.node_count());
+                    }
+                }
                 // nodes created on the way carry N::default(): give them unique tags
                 for i in n..cur_n {
                     let w = m.fresh();
